@@ -281,7 +281,11 @@ def one_config(ctx, kind, v, dt, mode, full=True):
         ctx.oracle('C06.e trailing zeros that do not change N change nothing', okz, {'values': vf, 'dt': dt, 'zeros': m, 'mode': list(mode)},
                    detail={'N': N})
     # ---- C06.g inverse helper
-    rf = call_impl(fq.fas2values, np.array(fas), dt)
+    fas_arg = np.array(fas)
+    fas_snap = fas_arg.copy()
+    rf = call_impl(fq.fas2values, fas_arg, dt)
+    ctx.oracle('C06.g fas2values leaves the spectrum it is given unchanged (bit for bit)', np.array_equal(fas_arg, fas_snap),
+               {'fas': fas, 'dt': dt}, detail={'changed_bins': [int(k) for k in np.nonzero(fas_arg != fas_snap)[0][:8]]})
     if N <= (256 if ctx.tier == 'quick' else 512):
         ctx.corr('fas2values', f"fas2values|{w_float(dt)}|{w_cx(fas)}", rf,
                  lambda outs, val, sc=sc: _cmp_cx(ctx, 'fas2values', outs[0], val, max(float(np.max(np.abs(val))) if len(val) else 0.0, 1e-300)),
